@@ -204,21 +204,30 @@ def step_prove(ctx, thorough):
         for t in re.findall(r"^(?:@\[[^\]]*\]\s*)?(?:private\s+|protected\s+)?(?:theorem|lemma)\s+(\S+)", src_nc, re.M):
             thms.append(m + ":" + t)
     ctx.obligations = thms
-    # axioms: the Props module prints them at build time; re-run lean on it to capture the output
-    rc, out, _ = run(["lake", "env", "lean", os.path.join(LEAN, "HbsLms", "Props", ctx.pid + ".lean")], cwd=LEAN)
-    cur = None
-    for m in re.finditer(r"'([^']+)' (depends on axioms: \[([^\]]*)\]|does not depend on any axioms)", out.replace("\n", " ")):
-        ax = [a.strip() for a in (m.group(3) or "").split(",") if a.strip()]
-        ctx.axioms[m.group(1)] = ax
-        extra = set(ax) - ALLOWED_AXIOMS
-        if extra:
-            ctx.proof_failures.append({"module": mod, "errors": ["theorem %s depends on axioms %s" % (m.group(1), sorted(extra))]})
+    # axioms: the Props modules print them at build time; re-run lean on each to capture the output
+    prop_files = [os.path.join(LEAN, "HbsLms", "Props", ctx.pid + ".lean")] + \
+        sorted(_glob.glob(os.path.join(LEAN, "HbsLms", "Props", ctx.pid + "?*.lean")))
+    for pf in prop_files:
+        pmod = "HbsLms.Props." + os.path.basename(pf)[:-5]
+        rc, out, _ = run(["lake", "env", "lean", pf], cwd=LEAN)
+        for m in re.finditer(r"'([^']+)' (depends on axioms: \[([^\]]*)\]|does not depend on any axioms)", out.replace("\n", " ")):
+            ax = [a.strip() for a in (m.group(3) or "").split(",") if a.strip()]
+            ctx.axioms[m.group(1)] = ax
+            extra = set(ax) - ALLOWED_AXIOMS
+            if extra:
+                ctx.proof_failures.append({"module": pmod, "errors": ["theorem %s depends on axioms %s" % (m.group(1), sorted(extra))]})
     if thorough:
-        rc, out, dt = run(["lake", "env", "leanchecker", mod], cwd=LEAN)
-        ctx.extra["leanchecker_s"] = round(dt, 1)
-        ctx.extra["leanchecker_rc"] = rc
-        if rc != 0:
-            ctx.proof_failures.append({"module": mod, "errors": ["leanchecker rejected the module: " + out[-500:]]})
+        t0 = time.time()
+        worst = 0
+        for pf in prop_files:
+            pmod = "HbsLms.Props." + os.path.basename(pf)[:-5]
+            rc, out, dt = run(["lake", "env", "leanchecker", pmod], cwd=LEAN)
+            worst = max(worst, rc)
+            if rc != 0:
+                ctx.proof_failures.append({"module": pmod, "errors": ["leanchecker rejected the module: " + out[-500:]]})
+        ctx.extra["leanchecker_s"] = round(time.time() - t0, 1)
+        ctx.extra["leanchecker_rc"] = worst
+        ctx.extra["leanchecker_modules"] = [os.path.basename(pf)[:-5] for pf in prop_files]
     return not ctx.proof_failures
 
 
